@@ -29,7 +29,7 @@ EXPLANATION = (
 )
 NOT_DECIDED = ["accessors never raise (in general)", "document properties reported unchanged (value identity through XML/OLE readers)", "behaviour on damaged-but-accepted files beyond the nullness facts", "which of several stored values feeds a metadata field when a file carries more than one candidate (e.g. <meta name=description> and og:description): value-level choice"]
 TRUSTED = ["ElementTree .text / one-argument .get / .find may return None", "str methods return str", "nullness and interval engines"]
-FLOORS = {"C04-IFACE": 40, "C04-STR": 100, "C04-CHR": 5, "C04-BYTES": 20, "C04-DIM": 6, "C04-NUMPOS": 12, "C04-META": 21, "C04-TRUTH": 100}
+FLOORS = {"C04-IFACE": 40, "C04-STR": 100, "C04-CHR": 5, "C04-BYTES": 20, "C04-DIM": 6, "C04-NUMPOS": 12, "C04-META": 21, "C04-TRUTH": 100, "C04-SAME": 8}
 
 PROTO_METHODS = {
     "ExtractionInterface": ["iterate_units", "iterate_images", "iterate_tables", "get_full_text", "get_metadata", "to_json"],
@@ -517,6 +517,36 @@ def _is_elem_find(ctx, mod, c) -> bool:
     return len(c.args) >= 2 or any(k.arg == "namespaces" for k in c.keywords)
 
 
+def rule_same(ctx: Ctx) -> RuleReport:
+    """'Textual document properties stored in the file are reported unchanged': sibling fields filled from one reader helper are
+    all filled the same way (a field whose value passes through an extra transformation is the deviant)."""
+    rep = RuleReport("C04-SAME", "metadata fields that are filled from one reader helper are all assigned the helper's result itself (no field is rewritten on the way)")
+    n_groups = 0
+    for m in ctx.p.modules.values():
+        if "/tests/" in m.rel or not m.rel.startswith(X):
+            continue
+        for fi in m.functions.values():
+            groups = {}
+            for a in walk_own(fi.node):
+                if isinstance(a, ast.Assign) and len(a.targets) == 1 and isinstance(a.targets[0], ast.Attribute) and "metadata" in norm(a.targets[0].value):
+                    calls = [c for c in ast.walk(a.value) if isinstance(c, ast.Call) and isinstance(c.func, ast.Name) and len(c.args) == 1 and isinstance(c.args[0], ast.Constant) and isinstance(c.args[0].value, str)]
+                    for c in calls:
+                        groups.setdefault(c.func.id, []).append((a, c))
+            for helper, sites in groups.items():
+                if len(sites) < 5:
+                    continue
+                n_groups += 1
+                rep.unit(fi.key)
+                for a, c in sites:
+                    if a.value is c:
+                        rep.ok({"field": norm(a.targets[0]), "value": norm(c)})
+                    else:
+                        rep.fail(Finding("C04-SAME", m.rel, fi.qual, f"{a.targets[0].attr} rewritten: " + anorm(a.value, fi.node)[:80], f"`{short(a, 80)}` rewrites what {helper}() read from the file while the {len(sites) - 1} sibling fields report it as stored: the property is not reported unchanged (a description such as 'pressures < 1 bar, temperatures > 300 K' loses the part between the angle brackets)", line=a.lineno))
+    if n_groups < 1:
+        raise AnalysisError("C04-SAME: no group of sibling metadata assignments found (the EPUB Dublin Core block was confirmed)")
+    return rep
+
+
 def rule_truth(ctx: Ctx) -> RuleReport:
     """An Element is false when it has no children: `find(a) or find(b)` and `if elem:` silently discard leaf elements (dc:creator, dc:title, ...)."""
     rep = RuleReport("C04-TRUTH", "the result of Element.find is compared with None, never truth-tested (a childless element is falsy, so a stored property would be replaced or dropped)")
@@ -560,4 +590,4 @@ def rule_truth(ctx: Ctx) -> RuleReport:
     return rep
 
 
-RULES = [rule_iface, rule_str, rule_chr, rule_bytes, rule_dim, rule_numpos, rule_meta, rule_truth]
+RULES = [rule_iface, rule_str, rule_chr, rule_bytes, rule_dim, rule_numpos, rule_meta, rule_truth, rule_same]
